@@ -1,7 +1,7 @@
 \* generation: the state graph of Node with MaxChildren children, printed edge by edge
 CONSTANTS
-    RawU = {"a", ".wh.a", ".wh..wh..opq", ".prefetch.landmark", ".no.prefetch.landmark", "stargz.index.json", ".wh..wh.foo", "l"}
-    LookupU = {"a", ".wh.a", "foo", ".wh.foo", ".wh..wh.foo", ".wh..opq", ".wh..wh..opq", ".prefetch.landmark", ".no.prefetch.landmark", "stargz.index.json", "zz", ".stargz-snapshotter", "l"}
+    RawU = {"a", ".wh.a", ".wh..wh..opq", ".prefetch.landmark", ".no.prefetch.landmark", "stargz.index.json", ".wh..wh.foo", "l", "c13", "c00"}
+    LookupU = {"a", ".wh.a", "foo", ".wh.foo", ".wh..wh.foo", ".wh..opq", ".wh..wh..opq", ".prefetch.landmark", ".no.prefetch.landmark", "stargz.index.json", "zz", ".stargz-snapshotter", "l", "c13", "c00"}
     MaxChildren = 3
     ExtraContents = {}
     Modes = {"trusted", "user", "all"}
